@@ -110,3 +110,65 @@ contract(
              "forall(0, n_face, 0, n_max_face_nodes, lambda f, j: result[f, j] == inverse_indices[n_max_face_nodes * f + j])"],
     raises=[("Exception", "False", "only_if")],
 )
+
+# ---------------------------------------------------------------------------------------------
+# _build_node_faces_connectivity(face_nodes, n_node)                                 (DESIGN B.2, without ghost witnesses)
+# face f is listed in row n  iff  n is a corner of f; rows are padded at the end only
+# ---------------------------------------------------------------------------------------------
+_FN = "old(face_nodes)"          # the loop rebinds the name `face_nodes` to the current row
+_ROWLEN = "len(node_face_conn[n])"
+_ELEM = "node_face_conn[n][t]"
+
+
+def _nf_listed(upto_face, upto_pos):
+    """every listed face really has n as a corner (among the (face, position) pairs processed so far)"""
+    return (f"forall(0, n_node, lambda n: forall(0, {_ROWLEN}, lambda t: 0 <= {_ELEM} and "
+            f"{_ELEM} {'<' if upto_pos == '0' else '<='} {upto_face} and has_corner({_FN}, {_ELEM}, n), pattern=lambda t: {_ELEM}))")
+
+
+def _listed_in(node, face):
+    return f"exists(0, len(node_face_conn[{node}]), lambda t: node_face_conn[{node}][t] == {face}, pattern=lambda t: node_face_conn[{node}][t])"
+
+
+def _nf_complete(upto_face, upto_pos):
+    """every processed (face, position) pair with a real corner n is listed in row n"""
+    c = (f"forall(0, {upto_face}, 0, W, lambda f, j: implies({_FN}[f, j] != FILL, {_listed_in(_FN + '[f, j]', 'f')}), "
+         f"pattern=lambda f, j: {_FN}[f, j])")
+    if upto_pos != "0":
+        c += (f" and forall(0, {upto_pos}, lambda j: implies({_FN}[{upto_face}, j] != FILL, "
+              f"{_listed_in(_FN + '[' + upto_face + ', j]', upto_face)}), pattern=lambda j: {_FN}[{upto_face}, j])")
+    return c
+
+
+_NF_LEN = "forall(0, n_node, lambda n: 0 <= len(node_face_conn[n]))"
+
+contract(
+    "uxarray.grid.connectivity._build_node_faces_connectivity", props=["C03"],
+    sizes=["n_face", "W", "n_node"],
+    size_constraints=["n_node >= 1"],
+    params={"face_nodes": "arr(int, n_face, W, space='face', vspace='node')", "n_node": "n_node"},
+    requires=["forall(0, n_face, 0, W, lambda f, j: face_nodes[f, j] == FILL or (0 <= face_nodes[f, j] and face_nodes[f, j] < n_node))"],
+    returns="tuple(arr(int, n_node, n_cols), int)",
+    ensures=[
+        "shape(result[0])[0] == n_node and shape(result[0])[1] == result[1] and result[1] >= 0",
+        # f listed in row n  =>  n is a corner of f
+        "forall(0, n_node, 0, result[1], lambda n, t: implies(result[0][n, t] != FILL, 0 <= result[0][n, t] and result[0][n, t] < n_face and "
+        "has_corner(face_nodes, result[0][n, t], n)))",
+        # n is a corner of f  =>  f listed in row n
+        "forall(0, n_face, 0, W, lambda f, j: implies(face_nodes[f, j] != FILL, "
+        "exists(0, result[1], lambda t: result[0][face_nodes[f, j], t] == f)))",
+        # padding only at the end of a row
+        "forall(0, n_node, 0, result[1], 0, result[1], lambda n, t, u: implies(t < u and result[0][n, t] == FILL, result[0][n, u] == FILL))",
+        "dtype_is(result[0], 'int64')",
+    ],
+    loops={
+        0: loop(counter="fi", invariants=[_NF_LEN, _nf_listed("fi", "0"), _nf_complete("fi", "0")]),
+        1: loop(counter="jp", invariants=[_NF_LEN, _nf_listed("face_i", "jp"), _nf_complete("face_i", "jp")]),
+        2: loop(counter="km", invariants=["n_max_node_faces >= 0 - 1",
+                                          "forall(0, km, lambda n: len(node_face_conn[n]) <= n_max_node_faces)"]),
+        3: loop(counter="kn", invariants=[
+            "forall(0, kn, 0, n_max_node_faces, lambda n, t: node_face_connectivity[n, t] == ite(t < len(node_face_conn[n]), node_face_conn[n][t], FILL))",
+            "forall(kn, n_node, 0, n_max_node_faces, lambda n, t: node_face_connectivity[n, t] == FILL)"]),
+    },
+    raises=[("Exception", "False", "only_if")],
+)
